@@ -139,12 +139,34 @@ def coqchk(pid, work, log):
 
 
 def _impl_worker(args):
+    """Runs in a pool process: implementation run, oracle, non-triviality, per-case statistics."""
     modname, case = args
     mod = importlib.import_module("harness.engines." + modname)
     try:
-        return mod.run_impl(case)
+        o = mod.run_impl(case)
     except Exception as e:
-        return ["harness-exception", type(e).__name__, str(e)[:300], traceback.format_exc()[-1200:]]
+        return {"exc": [type(e).__name__, str(e)[:300], traceback.format_exc()[-1500:]]}
+    r = {}
+    try:
+        r["breaches"] = [list(b) for b in mod.oracle(case, o)][:20]
+    except Exception as e:
+        r["breaches"] = []
+        r["oracle_exc"] = traceback.format_exc()[-1500:]
+    try:
+        r["nt"] = bool(mod.nontrivial(case, o))
+    except Exception:
+        r["nt"] = False
+    if hasattr(mod, "stats"):
+        try:
+            r["stats"] = mod.stats(case, o)
+        except Exception:
+            r["stats"] = {}
+    co = mod.canon(o) if hasattr(mod, "canon") else o
+    if getattr(mod, "RAW_COMPARE", False):
+        r["dump"] = C.sx_dump(co)
+    else:
+        r["obs"] = co
+    return r
 
 
 def load_known():
@@ -171,40 +193,48 @@ def run_engine(pid, engname, tier, seed, work, pool, log, stats):
     for idx in range(n):
         cases.append(gen(pid, seed, tier, idx) if gen else mod.gen_case(seed, tier, idx))
     t0 = time.time()
-    obs = pool.map(_impl_worker, [(engname, c) for c in cases], chunksize=1)
+    results = pool.map(_impl_worker, [(engname, c) for c in cases], chunksize=1)
     t1 = time.time()
-    mres = C.model_run_parallel(mod.ENGINE_ID, [mod.to_model(c) for c in cases])
+    raw = getattr(mod, "RAW_COMPARE", False)
+    mres = C.model_run_parallel(mod.ENGINE_ID, [mod.to_model(c) for c in cases], raw=raw)
     t2 = time.time()
     mismatches, breaches = [], []
     seen = set()
     dist = {}
-    for k, (c, o, m) in enumerate(zip(cases, obs, mres)):
-        if o and isinstance(o, list) and o and o[0] == "harness-exception":
-            mismatches.append({"engine": engname, "case": c, "diff": ["impl raised", o[1], o[2]], "trace": o[3]})
+    agg = {}
+    for k, (c, r, m) in enumerate(zip(cases, results, mres)):
+        if "exc" in r:
+            mismatches.append({"engine": engname, "case": c, "diff": ["impl raised", r["exc"][0], r["exc"][1]],
+                               "trace": r["exc"][2]})
             continue
-        exp = mod.from_model(m)
-        cmp_obs = mod.canon(o) if hasattr(mod, "canon") else o
-        d = C.first_diff(cmp_obs, exp)
-        if d is not None:
-            mismatches.append({"engine": engname, "case": c, "diff": list(d)})
-        for b in mod.oracle(c, o):
+        if "oracle_exc" in r:
+            mismatches.append({"engine": engname, "case": c, "diff": ["oracle raised"], "trace": r["oracle_exc"]})
+        if raw:
+            if r["dump"] != m:
+                d = C.first_diff(C.sx_load(r["dump"]), mod.from_model(C.sx_load(m)))
+                mismatches.append({"engine": engname, "case": c, "diff": list(d) if d else ["text differs"]})
+        else:
+            d = C.first_diff(r["obs"], mod.from_model(m))
+            if d is not None:
+                mismatches.append({"engine": engname, "case": c, "diff": list(d)})
+        for b in r["breaches"]:
             breaches.append({"engine": engname, "case": c, "pid": b[0], "at": b[1], "text": b[2],
                              "key": b[3] if len(b) > 3 else None})
-        try:
-            nt = mod.nontrivial(c, o)
-        except Exception:
-            nt = False
-        if nt:
+        if r["nt"]:
             seen.add(C.case_hash(c))
         kd = c.get("kind", "?") if isinstance(c, dict) else "?"
         dist[kd] = dist.get(kd, 0) + 1
+        for kk, vv in r.get("stats", {}).items():
+            agg[kk] = agg.get(kk, 0) + vv
     st = stats.setdefault(engname, {})
     st.update({"cases": len(cases), "corpus_cases": ncorpus, "distinct_nontrivial": len(seen),
                "impl_s": round(t1 - t0, 2), "model_s": round(t2 - t1, 2), "kinds": dist,
                "rule": getattr(mod, "RULE", mod.nontrivial.__doc__ or ""),
                "samples": [mod.describe(c) for c in cases[ncorpus:ncorpus + 2]]})
-    if hasattr(mod, "summarize"):
-        st["distribution"] = mod.summarize(cases, obs)
+    if agg:
+        st["distribution"] = agg
+    if raw:
+        mres = [C.sx_load(m) for m in mres[:200]] + [None] * max(0, len(mres) - 200)
     # in-Coq replay of a sample: the same run_<engine> on the same literal must give the OCaml answer
     st["coq_replayed"] = coq_replay(mod, cases, mres, work, log, engname)
     return mismatches, breaches, mod
@@ -212,7 +242,8 @@ def run_engine(pid, engname, tier, seed, work, pool, log, stats):
 
 def coq_replay(mod, cases, mres, work, log, engname, limit=3, maxlen=6000):
     picks = []
-    order = sorted(range(len(cases)), key=lambda i: len(C.sx_dump(mod.to_model(cases[i]))))
+    cand = [i for i in range(len(cases)) if mres[i] is not None][:200]
+    order = sorted(cand, key=lambda i: len(C.sx_dump(mod.to_model(cases[i]))))
     for i in order:
         s = C.sx_dump(mod.to_model(cases[i]))
         if len(s) <= maxlen and len(C.sx_dump(mres[i])) <= maxlen:
@@ -363,11 +394,11 @@ def main(argv):
                         batch = [(gen(pid, seed, tier, idx + i) if gen else mod.gen_case(seed, tier, idx + i))
                                  for i in range(jobs * 2)]
                         idx += jobs * 2
-                        obs = pool.map(_impl_worker, [(eng, c) for c in batch], chunksize=1)
-                        for c, o in zip(batch, obs):
-                            if o and o[0] == "harness-exception":
+                        rs = pool.map(_impl_worker, [(eng, c) for c in batch], chunksize=1)
+                        for c, r in zip(batch, rs):
+                            if "exc" in r:
                                 continue
-                            br = [x for x in mod.oracle(c, o) if x[0] == pid and not is_known(x[3] if len(x) > 3 else None)]
+                            br = [x for x in r["breaches"] if x[0] == pid and not is_known(x[3] if len(x) > 3 else None)]
                             if br:
                                 found = (eng, c, br[0]); break
                         if found:
